@@ -99,10 +99,47 @@ def rep_key(v):
   return (type(v).__name__, v)
 
 
+_POOL = {'engine': None}
+
+
+def get_engine(case):
+  """A clean engine: reused between cases when the previous case left nothing behind but ordinary rows."""
+  e = _POOL['engine']
+  _POOL['engine'] = None
+  if e is None or REUSE_ENGINE is False:
+    e = fresh_engine()
+  return e
+
+
+REUSE_ENGINE = True
+
+
+def release_engine(e, case, outcome, post):
+  """Empty the table again with an ordinary action; drop the engine after anything unusual."""
+  if not REUSE_ENGINE or outcome[0] != 'ok':
+    return
+  ids = [r['id'] for r in post]
+  raw = []
+  for d in (case['require'], case['col_values']):
+    v = d.get('id', [])
+    raw.extend(v if isinstance(v, list) else [v])
+  if any(i > 60 for i in ids) or any(not isinstance(x, int) or isinstance(x, bool) or x == 0 or x > 60 for x in raw if x is not None):
+    return
+  try:
+    if ids:
+      e.apply_user_actions([ua('BulkRemoveRecord', 'T', ids)])
+    t = e.tables['T']
+    if fetch(e) or t.next_row_id() != 1:
+      return
+  except Exception:      # pylint: disable=broad-except
+    return
+  _POOL['engine'] = e
+
+
 def run_impl(case):
-  """Returns (pre, convtab, keytab, outcome, post, n_doc_actions_before_raise)."""
+  """Returns (pre, convtab, keytab, outcome, post)."""
   import useractions
-  e = fresh_engine()
+  e = get_engine(case)
   rows = case['rows']
   if rows:
     e.apply_user_actions([ua('BulkAddRecord', 'T', [r['id'] for r in rows],
@@ -126,6 +163,7 @@ def run_impl(case):
   finally:
     useractions.UserActions._do_doc_action = orig
   post = fetch(e)
+  release_engine(e, case, outcome, post)
   return pre, convtab, keytab, outcome, post
 
 
@@ -191,19 +229,27 @@ def coq_case(case, pre, convtab, keytab, outcome, post):
   if outcome[0] == 'ok':
     ret = outcome[1]
     if case['bulk']:
-      exp = '(inl (%s, (%s, %s, %s)))' % (table_lit(post, DATA), idlists(ret['recordIds']),
+      exp = '(okb %s (%s, %s, %s))' % (table_lit(post, DATA), idlists(ret['recordIds']),
                                           core.zlist(ret['addRecordIds']), idlists(ret['updateRecordIds']))
     else:
-      exp = '(inl (%s, (%s, %s)))' % (table_lit(post, DATA), core.zlist(ret['recordIds']),
+      exp = '(oks %s (%s, %s))' % (table_lit(post, DATA), core.zlist(ret['recordIds']),
                                       {'NONE': 'ANone', 'ADD': 'AAdd', 'UPDATE': 'AUpdate'}[ret['action']])
   else:
-    exp = '(inr %s)' % outcome[1]
-  return '(%s, %s, %s, %s, %s, %s)' % (env, tbl, req, cv, opts_lit(case['options']), exp)
+    exp = '(%s %s)' % ('errb' if case['bulk'] else 'errs', outcome[1])
+  return '(%s %s %s %s %s %s %s)' % ('mkb' if case['bulk'] else 'mks', env, tbl, req, cv, opts_lit(case['options']), exp)
 
 
 EXTRA_DEFS = '''
 Definition the_schema := %s.
 Definition keep := [1; 2; 3; 4].
+Definition expb := (table * (list (list Z) * list Z * list (list Z)) + error)%%type.
+Definition exps := (table * (list Z * action) + error)%%type.
+Definition okb (t : table) (r : list (list Z) * list Z * list (list Z)) : expb := inl (t, r).
+Definition errb (x : error) : expb := inr x.
+Definition oks (t : table) (r : list Z * action) : exps := inl (t, r).
+Definition errs (x : error) : exps := inr x.
+Definition mkb (e : env) (t : table) (rq cv : kv) (o : options) (x : expb) := (e, t, rq, cv, o, x).
+Definition mks (e : env) (t : table) (rq cv : cells) (o : options) (x : exps) := (e, t, rq, cv, o, x).
 Definition check_bulk (c : env * table * kv * kv * options * (table * (list (list Z) * list Z * list (list Z)) + error)) : bool :=
   match c with (e, t, req, cv, o, exp) =>
     match upsert e t req cv o, exp with
@@ -352,7 +398,7 @@ def exhaustive_cases():
 
 
 def cases(ctx):
-  out = [gen_case(ctx.rng) for _ in range(ctx.n(450, 6000))]
+  out = [gen_case(ctx.rng) for _ in range(ctx.n(500, 8000))]
   if ctx.tier == 'thorough':
     out.extend(exhaustive_cases())
     ctx.extra['exhaustive'] = True
@@ -420,6 +466,7 @@ def reference(case, pre, convtab, keytab):
     return ('err', 'EEnv', 'column does not accept data')
   next_id = max([r['id'] for r in table] + [0]) + 1
   resolved = []
+  case['_hits'] = hits = {}
   for i, a in enumerate(asks):
     if a is None:
       resolved.append(None)
@@ -445,10 +492,11 @@ def reference(case, pre, convtab, keytab):
       next_id = max(next_id, rid) + 1
       resolved.append(('add', rid))
     else:
+      written = {c: conv[(c, rep_key(col_values[c][i]))] for c in col_values}
       for r in table:
         if r['id'] in a:
-          for c in col_values:
-            r[c] = conv[(c, rep_key(col_values[c][i]))]
+          r.update(written)
+          hits.setdefault(r['id'], []).append(written)
       resolved.append(('upd', a))
   return finish(case, table, resolved, asks)
 
@@ -494,7 +542,7 @@ def judge(case, pre, convtab, keytab, outcome, post):
     return ('oracle', 'returned %r, reference %r' % (outcome[1], exp[2]))
   if post_d != exp[1]:
     diff = [r['id'] for r in post_d if r not in exp[1]] + [r['id'] for r in exp[1] if r not in post_d]
-    if case['bulk'] and stale_case(case, pre, outcome[1], diff):
+    if case['bulk'] and stale_case(case, pre, post_d, diff):
       return ('stale-duplicate-update', 'records %r were updated by several input rows; the last one carries the '
               'stored values and is dropped, an earlier one wins: got %r, reference %r' % (sorted(set(diff)),
               [r for r in post_d if r not in exp[1]], [r for r in exp[1] if r not in post_d]))
@@ -503,13 +551,29 @@ def judge(case, pre, convtab, keytab, outcome, post):
   return None
 
 
-def stale_case(case, pre, ret, diff):
-  """All differing records are updated by at least two input rows."""
-  hits = {}
-  for ids in ret.get('updateRecordIds', []):
-    for i in ids:
-      hits[i] = hits.get(i, 0) + 1
-  return bool(diff) and all(hits.get(i, 0) >= 2 for i in diff)
+def stale_case(case, pre, post_d, diff):
+  """Every differing record was updated by several input rows, the last of them writes the stored values, and the
+  record holds what the last input row that does change it wrote (trim_update_action on repeated row ids)."""
+  hits = case.get('_hits', {})
+  if not diff:
+    return False
+  for rid in set(diff):
+    entries = hits.get(rid, [])
+    before = [r for r in pre if r['id'] == rid]
+    after = [r for r in post_d if r['id'] == rid]
+    if len(entries) < 2 or len(before) != 1 or len(after) != 1:
+      return False
+    noop = lambda w: all(same(w[c], before[0][c]) for c in w)
+    if not noop(entries[-1]):
+      return False
+    changing = [w for w in entries if not noop(w)]
+    if not changing:
+      return False
+    expect = {k: before[0][k] for k in ['id'] + DATA}
+    expect.update(changing[-1])
+    if expect != after[0]:
+      return False
+  return True
 
 
 # ---------------------------------------------------------------------------------------------
@@ -518,9 +582,19 @@ def correspond(ctx):
   cs = cases(ctx)
   done = []
   bulk, single = [], []
-  for case in cs:
+  global REUSE_ENGINE
+  for n, case in enumerate(cs):
     try:
       r = run_impl(case)
+      if n % 20 == 0:        # monitor: reusing the engine between cases does not change what the engine does
+        REUSE_ENGINE = False
+        try:
+          r2 = run_impl(case)
+        finally:
+          REUSE_ENGINE = True
+        ctx.bump('re-run on a fresh engine')
+        if repr(r2) != repr(r):
+          ctx.broken('harness:engine reuse changes the outcome', 'case %r reused %r fresh %r' % (public(case), r[3:], r2[3:]))
       term = coq_case(case, *r)
     except Unrepresentable:
       ctx.bump('skipped:unrepresentable value')
@@ -550,13 +624,14 @@ def correspond(ctx):
               sample={'rows': case['rows'], 'call': [case['bulk'], case['require'], case['col_values'], case['options']],
                       'outcome': list(outcome[:2])})
   ctx._c28 = done
+  ctx.log('implementation ran on %d cases' % len(done))
   imports = ['Grist.Model.Upsert']
-  bad = ctx.run_cases('bulk', imports, 'check_bulk', [t for _, t in bulk], shard=150, extra_defs=EXTRA_DEFS)
+  bad = ctx.run_cases('bulk', imports, 'check_bulk', [t for _, t in bulk], shard=100, extra_defs=EXTRA_DEFS)
   for i in bad[:5]:
     case, r = done[bulk[i][0]]
     ctx.broken('correspondence:model of BulkAddOrUpdateRecord differs from the engine',
                'case %r engine %r table %r' % (public(case), r[3], r[4]))
-  bad = ctx.run_cases('single', imports, 'check_single', [t for _, t in single], shard=150, extra_defs=EXTRA_DEFS)
+  bad = ctx.run_cases('single', imports, 'check_single', [t for _, t in single], shard=100, extra_defs=EXTRA_DEFS)
   for i in bad[:5]:
     case, r = done[single[i][0]]
     ctx.broken('correspondence:model of AddOrUpdateRecord differs from the engine',
@@ -568,10 +643,11 @@ def case_key(case):
 
 
 def public(case):
-  return {k: case[k] for k in ('rows', 'bulk', 'require', 'col_values', 'options')}
+  return copy.deepcopy({k: case[k] for k in ('rows', 'bulk', 'require', 'col_values', 'options')})
 
 
 def search(ctx):
+  ctx.log('model evaluated on the cases')
   done = getattr(ctx, '_c28', None)
   if done is None:
     done = []
